@@ -47,6 +47,16 @@ def extra_cfgs(rng: random.Random) -> List[Dict[str, Any]]:
     return out
 
 
+def known_finding_cfgs() -> List[Dict[str, Any]]:
+    """Degenerate but valid sizes on which the pinned library raises (recorded as known findings, see known_findings.json):
+    each carries its own violation key, so that any OTHER failure of the same op is still reported."""
+    return [
+        {"op": "scaled_dot_product_attention", "batch": [2], "heads": None, "seq": 1, "d_head": 2, "mult": 1.0, "is_causal": True, "mask": None, "dropout_p": None,
+         "_kf": "sdpa_causal_seq_len_1"},
+        {"op": "cross_entropy", "vocab": 1, "batch_size": 3, "reduction": "mean", "mult": 1.0, "n_ignored": 0, "ignore_index": -100, "scale": 1.0, "_kf": "cross_entropy_one_class"},
+    ]
+
+
 def validate_wrapper(rep: Report) -> None:
     """Growth item: the _validate wrapper itself (spec/Validate.tla): every way of binding an unsupported argument
     (by position or by keyword, default or not) on a synthetic signature emitted by TLC, plus the real ops with the
@@ -115,7 +125,7 @@ def validate(rep: Report, events: List[List[Any]], cfg_of: Dict[int, Dict[str, A
             e = batch[l - 1]
             cfg = cfg_of.get(e[2], {})
             rep.violation(f"{e[1]} event rejected by ScaledOps_Trace: {clause} (slot={e[3] or 'out'}, class={e[4]}, flags={e[5:11]}, cfg={json.dumps(cfg, default=str)})",
-                          {"event": e, "clause": clause, "cfg": cfg}, key=f"{clause}:{e[1]}:{e[3]}")
+                          {"event": e, "clause": clause, "cfg": cfg}, key=(f"kf:{cfg['_kf']}:{clause}" if cfg.get("_kf") else f"{clause}:{e[1]}:{e[3]}"))
 
 
 def run(rep: Report, tier: str) -> None:
@@ -123,7 +133,7 @@ def run(rep: Report, tier: str) -> None:
     torch.manual_seed(common.seed())
     torch.set_num_threads(4)
     l2(rep)
-    cfgs = ops.configs_deep(rng, tier) + extra_cfgs(rng)
+    cfgs = ops.configs_deep(rng, tier) + extra_cfgs(rng) + known_finding_cfgs()
     classes = fnlog.Classes()
     events: List[List[Any]] = []
     cfg_of: Dict[int, Dict[str, Any]] = {}
